@@ -191,8 +191,10 @@ func HarnessC08(fam, nT, nV, convCode, form, filt int) {
 	var extraVals []hVal
 	for i, l := range decl {
 		if l.T == hTI {
-			// an interface-typed input is fed a value of the implementing type
-			extraVals = append(extraVals, hVal{L: hLabel{l.Name, hTP2, l.Sub}, ID: vnPayload("fresh", i)})
+			// an interface-typed input is fed a type-only value of the implementing type
+			// (Named() records the value's dynamic type, so a named value can never have
+			// an interface type; the library matches named values by exact type)
+			extraVals = append(extraVals, hVal{L: hLabel{"", hTP2, ""}, ID: vnPayload("fresh", i)})
 		} else {
 			extraVals = append(extraVals, hVal{L: l, ID: vnPayload("fresh", i)})
 		}
@@ -270,4 +272,14 @@ func HarnessC08(fam, nT, nV, convCode, form, filt int) {
 }
 
 // classifyRedefine names the known finding whose input shape is present.
-func (w *hWorld) classifyRedefine(decl []hLabel) string { return "" }
+func (w *hWorld) classifyRedefine(decl []hLabel) string {
+	// known finding Q: a declared input that is NAMED and of INTERFACE type cannot be passed
+	// on by the redefined function (its closure re-supplies it with Named(), which records
+	// the value's dynamic type, and named values are matched by exact type)
+	for _, l := range decl {
+		if l.Name != "" && l.T == hTI {
+			return "Q"
+		}
+	}
+	return ""
+}
